@@ -336,7 +336,7 @@ type cstep struct {
 	I     int             `json:"i"`
 	Ks    []bseq          `json:"ks"`
 	V     int             `json:"v"`
-	Via   bool            `json:"via"`
+	Via   []int           `json:"via"`
 	Kb    builder         `json:"kb"`
 	Api   string          `json:"api"`
 	On    string          `json:"on"`
@@ -554,7 +554,7 @@ func (w *world) absV(v containerdb.Value) int {
 const nVals = 3
 
 func (w *world) step(s cstep) (string, error) {
-	depthOf := map[string]int{"D1": 2, "D2": 1}
+	depthOf := map[string]int{"D1": 2, "D2": 1, "D3": 3}
 	keys := func(ks []bseq) []interface{} { r, _ := typedAll(ks, w.rnd); return r }
 	errRes := func(err error) string {
 		if err != nil {
@@ -597,12 +597,12 @@ func (w *world) step(s cstep) (string, error) {
 		depth := depthOf[s.C]
 		d := w.dictdb(s, depth)
 		ks := keys(s.Ks)
-		if s.Via {
-			d = d.GetDB(ks[0])
+		for _, g := range s.Via { // sub-dictionaries: GetDB with g keys at once, possibly chained
+			d = d.GetDB(ks[:g]...)
 			if d == nil {
-				return "", fmt.Errorf("GetDB(k1) returned nil for a depth-2 dictionary")
+				return "", fmt.Errorf("GetDB with %d of the %d keys returned nil (via %v)", g, depth, s.Via)
 			}
-			ks = ks[1:]
+			ks = ks[g:]
 		}
 		switch s.Op {
 		case "dset":
